@@ -107,14 +107,16 @@ type Sim struct {
 	dials     map[int]*dialReq
 	broker    *Broker
 
-	faultsOff atomic.Bool
-	stepCap   int
-	events    int
-	steps     int
-	capHit    string
-	deferred  int
-	sp        bool
-	gate      chan struct{}
+	faultsOff   atomic.Bool
+	yieldActive atomic.Int32
+	extensions  int
+	stepCap     int
+	events      int
+	steps       int
+	capHit      string
+	deferred    int
+	sp          bool
+	gate        chan struct{}
 
 	// clients
 	bases    []*mqtt.BaseClient // all BaseClients created (index = conn-1)
@@ -190,6 +192,8 @@ func (s *Sim) yield(site string) {
 	}
 	s.probe("yield:" + site)
 	s.log(Rec{Kind: "yield", S: site, V: d})
+	s.yieldActive.Add(1)
+	defer s.yieldActive.Add(-1)
 	if s.race {
 		for i := int64(0); i < d%7+1; i++ {
 			runtimeGosched()
@@ -444,7 +448,30 @@ func (s *Sim) runRoot(res *Result) {
 	})
 	endNs := us(sc.EndUs) + resid()
 	ended := false
-	s.at(endNs, "end", func() { ended = true })
+	settle := us(sc.EndUs - sc.HorizonUs)
+	if settle < us(1000) {
+		settle = us(1000)
+	}
+	var endFn func()
+	endFn = func() {
+		// quiescent-complete means that nothing more will happen: while requests
+		// are still queued or a goroutine is parked at a buggify site the judgement
+		// is postponed by another settle period (a bounded number of times - a
+		// client that is really stuck is judged in the end)
+		busy := s.yieldActive.Load() > 0
+		if !busy && s.retry != nil && !s.race {
+			st := s.retry.Stats()
+			busy = st.QueuedTasks > 0
+		}
+		if busy && s.extensions < 8 {
+			s.extensions++
+			s.log(Rec{Kind: "extend", V: int64(s.extensions)})
+			s.after(settle, "end", endFn)
+			return
+		}
+		ended = true
+	}
+	s.at(endNs, "end", endFn)
 
 	s.extraSetup()
 
